@@ -513,6 +513,13 @@ def rule_reap(program, ctx, prop=P, rid="C06.reap"):
                         ctx.bad(finding_at(prop, rid, c, "each notification task is awaited directly: a failed task's exception is re-raised into add_event"))
     if not n:
         ctx.bad(finding_func(prop, rid, program.func("nostr_relay.storage.base:BaseStorage.notify_all_connected"), "the previous round of notification tasks is no longer awaited", text="def notify_all_connected(...) :: wait"))
+    # what create_task() wraps must be a coroutine *function*: with a plain function the body (the socket write) runs inside add_event, before a task exists
+    nt = program.func("nostr_relay.notifier:NotifyClient.notify")
+    if isinstance(nt, ast.AsyncFunctionDef):
+        ctx.ok(rid, nt, "NotifyClient.notify is a coroutine function: its body runs in the task")
+    else:
+        ctx.bad(finding_func(prop, rid, nt, "NotifyClient.notify is a plain function: `create_task(self.notifier.notify(event))` evaluates it inside add_event - an exception of the announcement "
+                             "(link not up yet) is raised after the commit and the local broadcast, and the client is told OK=false for a stored event", text="def notify(...) :: sync"))
 
 
 def run(program, ctx):
@@ -544,6 +551,10 @@ def run(program, ctx):
 
     # a validator verdict replayed from memory refuses (or admits) an event whose verdict has changed meanwhile
     c03.rule_chain(program, ctx, prop=P, rid="C06.chain")
+    from . import c01
+
+    # LMDB answers OK=true before the writer thread runs: a key derivation that can raise for an admitted event loses it after the acknowledgement
+    c01.rule_tagindex(program, ctx, prop=P, rid="C06.tagindex")
     ctx.not_decided += [
         "'retrievable thereafter' as an end-to-end fact (engine semantics, LMDB writer thread having committed)",
         "'never refused except as duplicate' for all well-formed events (value-dependent faults inside pre_save/process_tags)",
